@@ -155,12 +155,12 @@ def obs_events(chk):
     # orders on both sides of 16 / 32 (any periodic or size-dependent branch of the recursion), the largest
     # admissible order, and strongly predictable data (reflection coefficients of modulus close to 1)
     grid += [(N, c, p, 0) for N, p in ((33, 16), (64, 17), (64, 33), (128, 40), (20, 18), (9, 7)) for c in (False, True)]
-    # (predictable data: low orders only - the denominator recursion of the method loses digits as the error vanishes;
-    #  measured worst deviation of a stage minimiser on the unchanged tree: 2e-9 for p <= 4, 2e-5 at p = 8)
-    grid += [(N, c, p, 3) for N, p in ((16, 2), (33, 3), (64, 4), (200, 4)) for c in (False, True)]
+    # (predictable data at every order: until the repair d8be8e1 the denominator was updated by Marple's order recursion, which
+    #  loses its digits as the error vanishes - 2e-5 at p = 8, 6e-4 at p = 40 - and such records were used at orders <= 4 only)
+    grid += [(N, c, p, 3) for N, p in ((16, 2), (33, 3), (64, 4), (200, 4), (64, 8), (20, 18), (128, 40)) for c in (False, True)]
     # a decaying transient (products of late samples underflow), integer counts on a large offset and a tone 110 dB above
     # the noise (variance below 1e-10 of the power): low orders, clauses conditioned on sum 1/(1-|k_i|^2)
-    grid += [(N, c, p, kd) for kd in (4, 5, 6) for N, p in ((64, 4), (160, 3)) for c in (False, True)]
+    grid += [(N, c, p, kd) for kd in (4, 5, 6) for N, p in ((64, 4), (160, 3), (64, 12)) for c in (False, True)]
     for rep in range(reps + len(grid)):
         if rep < len(grid):
             N, cplx, p_fixed, kind_fixed = grid[rep]
@@ -171,7 +171,8 @@ def obs_events(chk):
         p = int(rng.randint(1, min(N - 2, 40) + 1)) if p_fixed is None else p_fixed
         kind = int(rng.randint(4)) if kind_fixed is None else kind_fixed
         if kind == 3 and kind_fixed is None:
-            N, p = max(N, 16), min(p, 4)
+            N = max(N, 16)
+            p = min(p, N - 2)
         t = np.arange(N)
         if kind == 4:
             x = rng.randn(N) * np.exp(-2.5 * t)
@@ -215,8 +216,7 @@ def obs_events(chk):
             ev['rho_dev'] = obs.q(abs(rho - e0 * np.prod(1 - np.abs(k) ** 2)) / e0)
             cond = float(np.sum(1.0 / np.maximum(1 - np.abs(k) ** 2, 1e-300)))
             ev['rho_rel_ratio'] = obs.q(abs(rho - e0 * np.prod(1 - np.abs(k) ** 2)) / max(abs(rho), 1e-300) / (1e-14 * cond + 1e-9), 1e-3)
-            # (the denominator recursion of the method loses digits as the error vanishes: allowed max(1e-6, 1e-13 * cond))
-            ev['min_dev'] = obs.q(stage_minimiser_dev(x, k) / max(1.0, 1e-7 * cond))
+            ev['min_dev'] = obs.q(stage_minimiser_dev(x, k))
             rhos = [e0]
             nest = 0.0
             for q in range(1, p + 1):
